@@ -503,7 +503,13 @@ func vfC06Run(t *testing.T, cs vfC06Case, out *vfC06Out, isKnown func(string) bo
 					return fmt.Sprintf("step %d %s: subscribe did not succeed; frames: %s", si, s, vfRenderFrames(conn.Frames()))
 				}
 				model[ci][ch] = true
-				if ci == parkedConn && stage == 2 && w.Gates.Waiting(gateRm(ci, ch)) > 0 {
+				rmPending := false // the tick already decided to remove this channel's entry (parked now, or queued behind the parked one)
+			for _, g := range rmArmed {
+				if g == gateRm(ci, ch) {
+					rmPending = true
+				}
+			}
+			if ci == parkedConn && stage == 2 && rmPending {
 					resubDuringRm[ch] = true
 					out.labels = append(out.labels, "resubscribe_while_compensating_remove_parked")
 				}
